@@ -125,7 +125,9 @@ def c18_could_end(text):
     first = t.strip().split(None, 1)[0] if t.strip() else ''
     if first.startswith('wl'):
         first = first[2:]
-    return bool(first) and ('resume'.startswith(first) or 'quit'.startswith(first)) or '\x1b' in text
+    # junk must not change the modelled state either: nothing that could resolve to resume / quit / breakpoint / filter / connection
+    risky = ('resume', 'quit', 'breakpoint', 'filter', 'connection')
+    return (bool(first) and any(n.startswith(first.lower()) for n in risky)) or '\x1b' in text or not first
 
 
 def generate_prompt(seed, rng):
